@@ -11,7 +11,8 @@
  "backend": "kissat",
  "models": ["models/net_events.c", "models/net_os.c"],
  "cbmc": ["--malloc-may-fail", "--malloc-fail-null"],
- "timeout": 300,
+ "unwind": 3,
+ "timeout": 900,
  "assumptions": [
   "recv(2) per POSIX with a ghost peer stream (models/net_os.c); event loop per models/net_events.c (C04 verifies the real one)",
   "user callback = abstract stub h_ucb (arbitrary status, may re-register the descriptor)",
